@@ -325,6 +325,8 @@ def sha(obj):
 
 
 def write_evidence(prop, tier, level, coverage, assumptions, wall, violations):
+    if os.environ.get("VERIF_REPLAY"):
+        return
     os.makedirs(EVIDENCE, exist_ok=True)
     ev = {"property_id": prop, "tier": tier, "seed": seed(), "level": level, "coverage": coverage,
           "assumptions": assumptions, "wall_s": round(wall, 1), "violations": violations}
